@@ -98,12 +98,28 @@ def gen_case(r, nblocks=None):
             lines = [" ".join(r.choice(CONTENT_PIECES) for _ in range(r.randint(1, 3))) for _ in range(nl)]
             if r.random() < 0.3:
                 lines.insert(0, "  ")
+            # blocks without check-ai in front of / around the check-ai block (they owe no diagnostic)
+            wrap = False
+            x = r.random()
+            if x < 0.2:
+                out.append('<!-- <block name="plain%d"> -->\nfree text\n<!-- </block> -->\n\n' % bi)
+                line += 4
+            elif x < 0.35:
+                out.append('<!-- <block name="sorted%d" keep-sorted="asc"> -->\na\nb\n<!-- </block> -->\n\n' % bi)
+                line += 5
+            elif x < 0.45:
+                out.append('<!-- <block name="outer%d"> -->\n\n' % bi)
+                line += 2
+                wrap = True
             b.tag_line = line
             out.append("<!-- <block %s> -->\n" % render_attrs(attrs))
             for l in lines:
                 out.append(l + "\n")
             out.append("<!-- </block> -->\n\n")
             line += len(lines) + 3
+            if wrap:
+                out.append("<!-- </block> -->\n\n")
+                line += 2
             b.content = "\n" + "".join(l + "\n" for l in lines)
             b.expected_content = expected_content(b.content, b.pattern)
             blocks.append(b)
